@@ -70,6 +70,14 @@ fn main() {
     let max_violations = args.u64("max-violations", 5) as usize;
     let light = args.u64("light", 0) == 1;
 
+    // The histories run in a worker thread; this thread only watches for the one thing no in-process
+    // monitor can report: a call that blocks forever (a lock taken twice by the same thread). The
+    // criterion is independent of machine load: work unfinished, but no CPU time consumed for 8 s.
+    let out2 = out.clone();
+    let prop2 = prop.clone();
+    let worker = std::thread::spawn(move || {
+    let out = out2;
+    let prop = prop2;
     let mut report = Report { engine: "seqmon".into(), ..Default::default() };
     let mut master = Rng::new(seed);
     let mut sample_budget = 6usize;
@@ -88,15 +96,22 @@ fn main() {
         let mut d = Driver::new(&cfg, opts);
         let mut gen = Gen::new(rng.fork(), profile);
         let mut ops: Vec<Op> = Vec::with_capacity(nops);
+        *CURRENT.lock().unwrap() = cfg.to_line() + "\n";
         for _ in 0..nops {
             if d.dead {
                 break;
             }
             let op = gen.next_op(&cfg, &d.truth, d.now());
             ops.push(op);
+            {
+                let mut c = CURRENT.lock().unwrap();
+                c.push_str(&op.to_line());
+                c.push('\n');
+            }
             d.step(op);
         }
         let (res, known_hits) = d.finish();
+        HISTORIES_DONE.fetch_add(1, std::sync::atomic::Ordering::Relaxed);
         report.evaluations += 1;
         report.stats.merge(&res.stats);
         report.stats.inc(if cfg.kind == Kind::Unsync { "histories_unsync" } else { "histories_sync" });
@@ -145,7 +160,43 @@ fn main() {
     } else {
         report.write(&out);
     }
+    });
+    let mut idle = mmv::report::IdleWatch::new(8);
+    while !worker.is_finished() {
+        std::thread::sleep(std::time::Duration::from_millis(50));
+        if idle.idle() {
+            let text = CURRENT.lock().map(|c| c.clone()).unwrap_or_default();
+            let last = text.lines().last().unwrap_or("").to_string();
+            let mut report = Report { engine: "seqmon".into(), ..Default::default() };
+            report.evaluations = HISTORIES_DONE.load(std::sync::atomic::Ordering::Relaxed) + 1;
+            report.stats.inc("violating_histories");
+            report.notes.push("shard stopped: a call blocked forever; the counters of this shard are lost".into());
+            let v = Violation {
+                props: vec!["C09", "C08"],
+                sig: "progress:call-blocks-forever".into(),
+                detail: format!("`{}` has not returned and the process consumed no CPU time for 8 s: the calling thread is blocked inside the call and no other thread exists to unblock it", last),
+                op_index: text.lines().count().saturating_sub(2),
+            };
+            if prop == "all" || v.props.iter().any(|p| *p == prop) {
+                report.violations.push(Report::violation_json(&v, &text, 0));
+            } else {
+                report.other_property_alarms.insert(format!("C09:{}", v.sig), 1);
+                report.notes.push("a call blocked forever (C09): this shard could not judge its own property".into());
+                report.stats.inc("watchdog_fired");
+            }
+            if out.is_empty() {
+                println!("{}", report.to_json().dump());
+            } else {
+                report.write(&out);
+            }
+            std::process::exit(0);
+        }
+    }
+    let _ = worker.join();
 }
+
+static CURRENT: std::sync::Mutex<String> = std::sync::Mutex::new(String::new());
+static HISTORIES_DONE: std::sync::atomic::AtomicU64 = std::sync::atomic::AtomicU64::new(0);
 
 /// C15: metamorphic pairs. `contains_key` and iteration are pure observations.
 mod mmv_pure {
@@ -236,6 +287,12 @@ mod mmv_pure {
                 let mut v = cut.iter();
                 v.sort();
                 format!("{:?}", v)
+            }
+            Op::IterAdvance { ns } => {
+                let (mut x, y) = cut.iter_advance(ns);
+                x.extend(y);
+                x.sort();
+                format!("{:?}", x)
             }
             Op::Invalidate { k } => {
                 cut.invalidate(k);
